@@ -302,7 +302,15 @@ impl<'a> Harness<'a> {
             }
         }
         let model = Model::new(scn);
-        let outs = exec_scenario(self.ctx, &self.wd, scn, &model.built)?;
+        let mut outs = exec_scenario(self.ctx, &self.wd, scn, &model.built)?;
+        if outs.iter().any(|o| o.exit == Exit::Timeout) {
+            // A run that hits the cap is repeated once before it is believed: on an overloaded machine
+            // a run was seen to stall for minutes (observed under heavy parallel compilation and in the
+            // acceptance environment) although the same run takes milliseconds — only a run that stalls
+            // twice in a row is reported (a genuine hang is deterministic and will).
+            self.stats.probe("stalled_run_retried");
+            outs = exec_scenario(self.ctx, &self.wd, scn, &model.built)?;
+        }
         for (ri, (r, o)) in scn.runs.iter().zip(outs.iter()).enumerate() {
             account_trace(&mut self.stats, r, o);
             if o.exit == Exit::Timeout {
@@ -438,7 +446,7 @@ pub fn run_check(prop: &dyn Prop, env: &CheckEnv) -> i32 {
     let ctx = ExecCtx {
         sut: env.sut.clone(),
         scratch: env.scratch.clone(),
-        timeout: Duration::from_secs(240),
+        timeout: Duration::from_secs(120),
         runs_done: AtomicU64::new(0),
         events_seen: AtomicU64::new(0),
         run_ns: AtomicU64::new(0),
